@@ -2,7 +2,7 @@
 //! initial IR to stdout before the JSON line, so the `_method_names` pool of `__entry` is observable),
 //! slots forc emits for deployment (`BuiltPackage.storage_slots`), then run the package's `#[test]`
 //! functions with forc-test (which deploys the contract with exactly those slots) and print receipts.
-//!   c11 [--release] [--no-run] [--ir] <pkgdir>...
+//!   c11 [--release] [--no-run] [--ir] [--verbose] <pkgdir>...
 //! Output: one JSON line per package
 //!   {"pkg":..,"status":"ok"|"build_error"|"panic","error":..,"slots":[[keyhex,valuehex]..],"tests":[..]}
 use hx::util::{guarded, quiet_panics};
@@ -19,13 +19,13 @@ fn receipt(r: &fuel_tx::Receipt) -> serde_json::Value {
     }
 }
 
-fn run_pkg(dir: &str, release: bool, no_run: bool, ir: bool) -> serde_json::Value {
+fn run_pkg(dir: &str, release: bool, no_run: bool, ir: bool, verbose: bool) -> serde_json::Value {
     let mut slots_json = json!(null);
     let r = guarded(|| -> anyhow::Result<serde_json::Value> {
         let mut opts = forc_test::TestOpts::default();
         opts.pkg.path = Some(dir.to_string());
         opts.pkg.offline = true;
-        opts.pkg.terse = true;
+        opts.pkg.terse = !verbose;
         opts.release = release;
         opts.no_output = true;
         opts.print.ir.initial = ir;
@@ -77,12 +77,12 @@ fn run_pkg(dir: &str, release: bool, no_run: bool, ir: bool) -> serde_json::Valu
 
 fn main() {
     quiet_panics();
-    let (mut release, mut no_run, mut ir) = (false, false, false);
+    let (mut release, mut no_run, mut ir, mut verbose) = (false, false, false, false);
     let mut dirs = vec![];
     for a in std::env::args().skip(1) {
-        if a == "--release" { release = true } else if a == "--no-run" { no_run = true } else if a == "--ir" { ir = true } else { dirs.push(a) }
+        if a == "--release" { release = true } else if a == "--no-run" { no_run = true } else if a == "--ir" { ir = true } else if a == "--verbose" { verbose = true } else { dirs.push(a) }
     }
     for d in dirs {
-        println!("{}", run_pkg(&d, release, no_run, ir));
+        println!("{}", run_pkg(&d, release, no_run, ir, verbose));
     }
 }
